@@ -89,6 +89,7 @@ def _callee_key_from_pretty(pretty):
 
 def short_ty(t):
     t = t.strip()
+    t = re.sub(r"\{closure@[^}]*\}", "{closure}", t)
     t = re.sub(r"\b(?:std|core|alloc)::(?:[a-z_0-9]+::)*", "", t)
     t = re.sub(r"\bcollections::(?:hash_map::|hash::map::)?", "", t)
     return t
